@@ -2259,12 +2259,17 @@ class Interp:
     def modular_contract(self, fn):
         if not self.contracts:
             return None
-        c = self.contracts.get((self.relpath(fn.module), fn.qualname))
-        if c is None or not c.modular:
+        cs = self.contracts.get((self.relpath(fn.module), fn.qualname))
+        if not cs:
             return None
-        if c.group is not None and c.group not in getattr(self, 'active_groups', ()):
-            return None
-        return c
+        active = getattr(self, 'active_groups', ())
+        for c in cs:            # a contract of an active group first, then one that applies everywhere
+            if c.modular and c.group is not None and c.group in active:
+                return c
+        for c in cs:
+            if c.modular and c.group is None:
+                return c
+        return None
 
     _verifying = None
     _in_body = False
